@@ -10,6 +10,7 @@
 // of ONE range the standard leaves the choice unspecified (LWG 2844), so any of them is accepted there.
 #include <amc/fixedcapacityvector.hpp>
 #include <amc/flatset.hpp>
+#include <amc/smallset.hpp>
 #include <amc/smallvector.hpp>
 #include <amc/vector.hpp>
 
@@ -44,7 +45,19 @@ typedef amc::FixedCapacityVector<int, 96> UV;
 #else
 typedef std::vector<int, amc::allocator<int> > UV;
 #endif
+#ifndef C03_KIND
+#define C03_KIND 0
+#endif
+#if C03_KIND == 0
 typedef amc::FlatSet<int, Coarse4, UV::allocator_type, UV> FS;
+#elif C03_KIND == 1
+// C04: the same grid through a SmallSet<int, 4> whose large representation is that FlatSet (the first elements go through
+// the inline path, the rest of the range is handed to the backing set in one call) ...
+typedef amc::SmallSet<int, 4, Coarse4, UV::allocator_type, amc::FlatSet<int, Coarse4, UV::allocator_type, UV> > FS;
+#else
+// ... or a std::set
+typedef amc::SmallSet<int, 4, Coarse4, amc::allocator<int> > FS;
+#endif
 typedef std::set<int, Coarse4> MS;
 
 template <class T>
@@ -153,6 +166,7 @@ static void point(int op, int n, int m, int off, int kind, int dup) {
         fs.insert(SP<int>(&range, 0), SP<int>(&range, range.size()));
         break;
       case CTOR_RANGE: fs = FS(range.begin(), range.end()); break;
+#if C03_KIND == 0
       case CTOR_VEC: {
         UV v(range.begin(), range.end());
         fs = FS(std::move(v));
@@ -162,6 +176,7 @@ static void point(int op, int n, int m, int off, int kind, int dup) {
         UV v(range.begin(), range.end());
         fs = std::move(v);
       } break;
+#endif
       case MERGE: {
         fs.insert(held.begin(), held.end());
         other = FS(range.begin(), range.end());
@@ -185,6 +200,7 @@ static void point(int op, int n, int m, int off, int kind, int dup) {
     if (left != blocked || other.size() != blocked.size()) fail(id, "merge: the source keeps " + std::to_string(other.size()) + " elements, expected the " + std::to_string(blocked.size()) + " blocked ones");
   }
   std::vector<int> got(fs.begin(), fs.end()), want(ms.begin(), ms.end());
+  if (C03_KIND != 0) std::stable_sort(got.begin(), got.end(), Coarse4());  // an inline SmallSet iterates in insertion order
   if (got.size() != want.size()) {
     fail(id, "size " + std::to_string(got.size()) + ", std::set has " + std::to_string(want.size()) + " [" + seq(got) + "] vs [" + seq(want) + "]");
     return;
@@ -212,7 +228,8 @@ int main(int argc, char **argv) {
     if (std::string(argv[a]) == "--case") g_only = argv[a + 1];
   }
   const int cap = C03_VEC == 2 ? 96 : 1 << 20;
-  for (int op = 0; op < OPS; ++op)
+  for (int op = 0; op < OPS; ++op) {
+    if (C03_KIND != 0 && (op == CTOR_VEC || op == ASSIGN_VEC)) continue;
     for (int n = 0; n <= NMAX; ++n)
       for (int m = 0; m <= NMAX; ++m)
         for (int oi = 0; oi < 3; ++oi) {
@@ -225,6 +242,7 @@ int main(int argc, char **argv) {
               point(op, n, m, off, kind, dup);
             }
         }
+  }
   std::printf("{\"evaluations\":%ld,\"distinct_nontrivial\":%ld,\"above_16_elements\":%ld,\"nmax\":%d,\"failures\":[", g_eval, g_nontrivial, g_big, NMAX);
   for (size_t i = 0; i < g_fail.size(); ++i) std::printf("%s\"%s\"", i ? "," : "", g_fail[i].c_str());
   std::printf("],\"samples\":[");
